@@ -160,7 +160,14 @@ fn gen_case(seed: u64, tier: Tier) -> Case {
 			5 if nm > 0 => MOp::LfoFrequency { m: rng.usize_below(nm), v: rng.frange(0.0, 2.0 / unit) },
 			6 if nm > 0 => MOp::LfoAmplitude { m: rng.usize_below(nm), v: rng.frange(-2.0, 2.0) },
 			7 if nm > 0 => MOp::LfoOffset { m: rng.usize_below(nm), v: rng.frange(-2.0, 2.0) },
-			8 if nm > 0 => MOp::LfoPhase { m: rng.usize_below(nm), v: rng.frange(0.0, TAU) },
+			// (phases from a small pool: a retrigger - the same phase set again - must reset the phase again)
+			8 if nm > 0 => MOp::LfoPhase {
+				m: rng.usize_below(nm),
+				v: {
+					let r = rng.frange(0.0, TAU);
+					*rng.pick(&[0.0, 0.0, std::f64::consts::PI, r])
+				},
+			},
 			9 if nm > 0 => MOp::LfoWave { m: rng.usize_below(nm), w: *rng.pick(&[WaveS::Sine, WaveS::Triangle, WaveS::Saw, WaveS::Pulse(0.3)]) },
 			10 if nm > 0 => MOp::DropMod { m: rng.usize_below(nm) },
 			11 => MOp::Callback {
